@@ -855,6 +855,136 @@ def r06_9(rep: Report) -> None:
         raise AnalysisError(f'only {n_sites} call(s) of a wrapping lookup found in Representation')
 
 
+def r06_10(rep: Report) -> None:
+    """R06.10  a stored fragment without a tfdt box is served with a decode time synthesised from the index: the
+    sum of the durations of the stored fragments BEFORE it - `segments[1:<index>]` (segments[0] is the init
+    segment, <index> is what load_fragment was given).  One more or one less and the first fragment does
+    not start at the file's first decode time and the fragments no longer abut."""
+    from ..core import subst_locals, ancestors
+    rel = 'dashlive/server/requesthandler/media_requests.py'
+    tree = rep.repo.tree(rel)
+    cls = need(find_class(tree, 'MediaRequestBase'), 'MediaRequestBase')
+    fn = need(find_func(cls, 'generate_media_segment'), 'generate_media_segment')
+    c = f'{rel}::MediaRequestBase.generate_media_segment'
+    loads = [n for n in ast.walk(fn) if isinstance(n, ast.Call) and (call_name(n) or '').endswith('load_fragment') and len(n.args) >= 2]
+    boxes = [n for n in ast.walk(fn) if isinstance(n, ast.Call) and (call_name(n) or '').endswith('TrackFragmentDecodeTimeBox')]
+    if not loads or not boxes:
+        raise AnalysisError('generate_media_segment: load_fragment / TrackFragmentDecodeTimeBox construction not found')
+    index = norm(loads[0].args[1])
+    arg = next((k.value for k in boxes[0].keywords if k.arg == 'base_media_decode_time'), None)
+    region: list[ast.AST] = [arg] if arg is not None else []
+    known: set[str] = set()
+    for _ in range(4):
+        names = {x.id for r_ in region for x in ast.walk(r_) if isinstance(x, ast.Name)} - known
+        if not names:
+            break
+        known |= names
+        for a in ast.walk(fn):
+            if isinstance(a, (ast.Assign, ast.AnnAssign, ast.AugAssign)) and getattr(a, 'value', None) is not None:
+                tg = a.targets[0] if isinstance(a, ast.Assign) else a.target
+                if isinstance(tg, ast.Name) and tg.id in names:
+                    region.append(a.value)
+                    # an accumulation inside a loop: what the loop runs over belongs to the value
+                    for anc in ancestors(a):
+                        if isinstance(anc, ast.For):
+                            region.append(anc.iter)
+                        if anc is fn:
+                            break
+    slices = [x for r_ in region for x in ast.walk(r_) if isinstance(x, ast.Subscript) and isinstance(x.slice, ast.Slice)
+              and norm(x.value).endswith('.segments')]
+    if not slices:
+        rep.fail('R06.10', c, 'synthesised tfdt = durations of segments[1:index]',
+                 'the decode time given to a synthesised tfdt box is not a sum over a slice of the stored segments: unrecognised', boxes[0])
+        return
+    sl = slices[0].slice
+    # plain copies of a name (a parameter of an inlined helper): mod_segment__helper = mod_segment
+    copies = {a.targets[0].id: a.value.id for a in ast.walk(fn) if isinstance(a, ast.Assign) and len(a.targets) == 1
+              and isinstance(a.targets[0], ast.Name) and isinstance(a.value, ast.Name)}
+
+    # ... and names unpacked from a tuple / record built from names: a, b = rec with rec = Rec(x, y)
+    for a in ast.walk(fn):
+        if isinstance(a, ast.Assign) and len(a.targets) == 1 and isinstance(a.targets[0], ast.Tuple) \
+                and all(isinstance(e_, ast.Name) for e_ in a.targets[0].elts):
+            src_ = a.value
+            if isinstance(src_, ast.Name):
+                ds_ = [b.value for b in ast.walk(fn) if isinstance(b, (ast.Assign, ast.AnnAssign)) and getattr(b, 'value', None) is not None
+                       and norm(b.targets[0] if isinstance(b, ast.Assign) else b.target) == src_.id]
+                src_ = ds_[0] if len(ds_) == 1 else None
+            elts_ = src_.elts if isinstance(src_, ast.Tuple) else (
+                src_.args if isinstance(src_, ast.Call) and not src_.keywords and (call_name(src_) or '')[:1].isupper() else None)
+            if elts_ is not None and len(elts_) == len(a.targets[0].elts):
+                for t_, v_ in zip(a.targets[0].elts, elts_):
+                    if isinstance(v_, ast.Name):
+                        copies[t_.id] = v_.id
+
+    def canon_name(t: str) -> str:
+        seen_ = set()
+        while t in copies and t not in seen_:
+            seen_.add(t)
+            t = copies[t]
+        return t
+    lo = norm(subst_locals(fn, sl.lower)) if sl.lower is not None else '0'
+    hi = canon_name(norm(subst_locals(fn, sl.upper))) if sl.upper is not None else '<end>'
+    index = canon_name(index)
+    if lo == '1' and hi == index:
+        rep.ok('R06.10', c, 'synthesised tfdt = durations of segments[1:index]', f'segments[1:{index}]')
+    else:
+        rep.fail('R06.10', c, 'synthesised tfdt = durations of segments[1:index]',
+                 f'the synthesised decode time sums `{norm(slices[0])}`; the fragments before fragment `{index}` are '
+                 f'segments[1:{index}] (segments[0] is the init segment): the decode time is off by one fragment, the first '
+                 'fragment does not start at the first decode time of the file and consecutive fragments do not abut', slices[0])
+
+
+def r06_11(rep: Report) -> None:
+    """R06.11  SegmentTimeline run-length encoding: an `S` entry is extended (its repeat count raised) only when
+    the duration about to be listed equals the duration of the run - the value compared with `<run>.duration`
+    is the value assigned to `<run>.duration` in the same iteration.  Comparing something else (the stored
+    duration, before the live drift correction) folds the corrected last fragment into the run and then
+    rewrites the whole run's duration."""
+    from .c04 import subst_locals_in
+    tree = rep.repo.tree(REP)
+    cls = need(find_class(tree, 'Representation'), 'Representation')
+    fn = need(find_func(cls, 'generateSegmentTimeline'), 'generateSegmentTimeline')
+    c = f'{REP}::Representation.generateSegmentTimeline'
+    n = 0
+    for loop in [x for x in ast.walk(fn) if isinstance(x, (ast.While, ast.For))]:
+        stores = [a for a in ast.walk(loop) if isinstance(a, ast.Assign) and len(a.targets) == 1
+                  and isinstance(a.targets[0], ast.Attribute) and a.targets[0].attr == 'duration'
+                  and isinstance(a.targets[0].value, ast.Name)]
+        for st in stores:
+            node = st.targets[0].value.id
+            cmps = [x for x in ast.walk(loop) if isinstance(x, ast.Compare) and len(x.ops) == 1
+                    and isinstance(x.ops[0], (ast.Eq, ast.NotEq))
+                    and any(norm(y) == f'{node}.duration' for y in (x.left, x.comparators[0]))]
+            for cp in cmps:
+                other = cp.comparators[0] if norm(cp.left) == f'{node}.duration' else cp.left
+                if isinstance(other, ast.Constant):
+                    continue                # `is None`-like tests written with ==
+                n += 1
+                a_, b_ = norm(subst_locals_in(loop, other)), norm(subst_locals_in(loop, st.value))
+                a0, b0 = norm(other), norm(st.value)
+                # a local that is corrected after it was copied (`duration = seg.duration` ... `duration += drift`)
+                # is not its first definition
+                writes: dict[str, int] = {}
+                for w in ast.walk(loop):
+                    tg_ = w.targets if isinstance(w, ast.Assign) else ([w.target] if isinstance(w, (ast.AugAssign, ast.AnnAssign)) else [])
+                    for t_ in tg_:
+                        if isinstance(t_, ast.Name):
+                            writes[t_.id] = writes.get(t_.id, 0) + 1
+                stable = not any(isinstance(x, ast.Name) and writes.get(x.id, 0) > 1
+                                 for e_ in (other, st.value) for x in ast.walk(e_))
+                if a0 == b0 or (stable and a_ == b_):
+                    rep.ok('R06.11', c, f'run extended on the listed duration ({node})', f'`{a0}` compared, `{b0}` stored')
+                else:
+                    rep.fail('R06.11', c, f'run extended on the listed duration ({node})',
+                             f'`{norm(cp)}` decides whether the run continues, but `{norm(st)}` is what the run then '
+                             f'lists: `{a0}` and `{b0}` differ for the last fragment of a pass (live drift correction), so '
+                             'that fragment is folded into the run and the duration of every segment of the run changes '
+                             'with the window', cp)
+    if n == 0:
+        raise AnalysisError('generateSegmentTimeline: no comparison of a run duration found')
+
+
 def analyse(rep: Report) -> None:
     rep.explanation = (
         'Conventions that the static manifests and the media endpoint must share: the inclusive '
@@ -871,6 +1001,8 @@ def analyse(rep: Report) -> None:
     rep.rule('R06.8', 'a static SegmentTimeline covers exactly the track\'s own duration', floor=1)
     rep.rule('R06.4', 'indexer clock: start = previous end or tfdt, end = start + sample durations', floor=6)
     rep.rule('R06.9', 'static requests are not mapped through a lookup that wraps at the end of the media', floor=2)
+    rep.rule('R06.10', 'a synthesised tfdt is the sum of the durations of the fragments before the requested one', floor=1)
+    rep.rule('R06.11', 'an S run is extended only when the listed duration equals the duration of the run', floor=1)
     r06_1(rep)
     r06_2(rep)
     r06_3(rep)
@@ -880,3 +1012,5 @@ def analyse(rep: Report) -> None:
     r06_7(rep)
     r06_8(rep)
     r06_9(rep)
+    r06_10(rep)
+    r06_11(rep)
